@@ -38,6 +38,7 @@ type fileBuf struct {
 	line   int
 	col    int
 	prevCR bool
+	noFile bool // text compiled by Function(): functions defined in it carry no file
 }
 
 func newBuf(table, nameID int, name string) *fileBuf {
@@ -57,7 +58,7 @@ func (f *fileBuf) w(s string) {
 			f.line++
 			f.col = 1
 			f.prevCR = true
-		case ' ', ' ':
+		case '\u2028', '\u2029':
 			f.line++
 			f.col = 1
 			f.prevCR = false
@@ -98,10 +99,10 @@ func jsQuote(s string) string {
 			sb.WriteString(`\n`)
 		case '\r':
 			sb.WriteString(`\r`)
-		case ' ':
-			sb.WriteString(` `)
-		case ' ':
-			sb.WriteString(` `)
+		case '\u2028':
+			sb.WriteString("\\u2028")
+		case '\u2029':
+			sb.WriteString("\\u2029")
 		default:
 			sb.WriteRune(r)
 		}
@@ -202,7 +203,7 @@ type prog struct {
 	wrapStart int
 	wrapEnd   int
 	counter   int
-	desc      []string
+	history   int // 0: fresh runtime; otherwise the trace limit of the warm-up runs
 }
 
 const prelude = `function ok(){ return 1 } function ok2(){ return ok } var H = {ok: ok, h: {ok: ok}};
@@ -214,7 +215,7 @@ function __facts(e) {
   if (e === null || typeof e !== "object") { return "0,0,0,0,0,0" + "\u0001" + String(e) + "\u0001\u0001\u0001"; }
   var k = names.indexOf(e.name), C = ctors[k];
   return [k + 1, (C && e instanceof C) ? 1 : 0, (e instanceof Error) ? 1 : 0,
-          (C && Object.getPrototypeOf(e) === C.prototype && e.constructor === C && !e.hasOwnProperty("name")) ? 1 : 0,
+          (C && Object.getPrototypeOf(e) === C.prototype && e.constructor === C) ? 1 : 0,
           (Object.prototype.toString.call(e) === "[object Error]") ? 1 : 0,
           (typeof e.message === "string" && e.message.length > 0) ? 1 : 0].join(",") +
          "\u0001" + String(e) + "\u0001" + e.name + "\u0001" + e.message + "\u0001" + e.stack;
@@ -241,7 +242,9 @@ func (p *prog) sep(w *fileBuf) {
 		w.w("\r\n")
 	default:
 		if p.q.term && r.Intn(2) == 0 {
-			w.w(Pick(r, []string{"\r", " ", " ", "\r\r", "\n\r", " \n"}))
+			// a lone CR is always followed by two blanks: otto's lexer peeks one byte too far and
+			// swallows the character between a CR and a LF ("\r}\n" loses the brace)
+			w.w(Pick(r, []string{"\r  ", "\u2028", "\u2029", "\r\r  ", "\n\r  ", "\u2028\n"}))
 		} else {
 			w.w("\n")
 		}
@@ -252,6 +255,13 @@ func (p *prog) sep(w *fileBuf) {
 	} else if r.Intn(5) == 0 {
 		w.w(Pick(r, []string{"/* c */ ", "/**/", "1; ", "// note\n", "; "}))
 	}
+}
+
+func fnKind(id int, w *fileBuf) string {
+	if w.noFile {
+		return fmt.Sprintf("LvFuncNoFile %d %d", id, w.table)
+	}
+	return fmt.Sprintf("LvFunc %d %d", id, w.table)
 }
 
 func ev(k string, at pos) string { return fmt.Sprintf("EvCall %s %d %d %d", k, at.idx, at.line, at.col) }
@@ -285,14 +295,16 @@ func (p *prog) prior(w *fileBuf, lv *lvl) {
 			b := w.here()
 			w.w("ok());")
 			lv.events = append(lv.events, ev("KIdent", b), ev("KIdent", a))
-		case 6: // a caught error leaves no mark
-			w.w(Pick(r, []string{"try { zz } catch (e1) {}", "try { U.x } catch (e1) {}", "try { throw new Error('x') } catch (e1) {}"}))
-			if strings.Contains(string(w.b[len(w.b)-40:]), "new Error") {
-				// `new Error` is a call site of this frame
-				at := w.here()
-				off := strings.LastIndex(string(w.b), "Error('x')")
-				back := len(w.b) - off
-				lv.events = append(lv.events, fmt.Sprintf("EvCall KIdent %d %d %d", at.idx-back, at.line, at.col-back))
+		case 6: // a caught error leaves no mark; `new Error` is a call site of this frame
+			switch r.Intn(3) {
+			case 0:
+				w.w("try { zz } catch (e1) {}")
+			case 1:
+				w.w("try { U.x } catch (e1) {}")
+			default:
+				w.w("try { throw new ")
+				lv.events = append(lv.events, ev("KIdent", w.here()))
+				w.w("Error('x') } catch (e1) {}")
 			}
 		case 7:
 			lv.events = append(lv.events, ev("KDot", w.here()))
@@ -433,7 +445,7 @@ func (p *prog) define(si int) {
 	s := p.steps[si]
 	w := s.file
 	nm, id := p.fnName(s)
-	p.levels[s.fnLvl].kind = fmt.Sprintf("LvFunc %d %d", id, w.table)
+	p.levels[s.fnLvl].kind = fnKind(id, w)
 	switch s.def {
 	case "decl":
 		w.w("function " + nm + "(a, b) {")
@@ -496,11 +508,14 @@ func (p *prog) body(w *fileBuf, li, si int, inFunc, top bool) {
 func (p *prog) final(w *fileBuf, li, si int, inFunc bool) {
 	r := p.r
 	pre, post := "", ""
+	stmtOnly := si == len(p.steps) && p.kind >= 41 // throw is a statement
 	switch r.Intn(9) {
 	case 0:
-		pre = "var v = "
+		if !stmtOnly {
+			pre = "var v = "
+		}
 	case 1:
-		if inFunc {
+		if inFunc && !stmtOnly {
 			pre = "return "
 		}
 	case 2:
@@ -560,15 +575,11 @@ func (p *prog) emitCall(w *fileBuf, li, si int) {
 			lv.events = append(lv.events, ev("KDot", a), ev("KOther", a))
 			w.w(ref + ".bind(null)()")
 		case "bindvar":
-			// (function(){...}) would be another frame; use a comma-free sequence instead
-			a := w.here()
-			w.w(fmt.Sprintf("B%d = ", s.n))
-			b := w.here()
-			_ = a
-			lv.events = append(lv.events, ev("KDot", b))
+			w.w(fmt.Sprintf("(B%d = ", s.n))
+			lv.events = append(lv.events, ev("KDot", w.here()))
 			w.w(ref + ".bind(null), ")
 			lv.events = append(lv.events, ev("KIdent", w.here()))
-			w.w(fmt.Sprintf("B%d()", s.n))
+			w.w(fmt.Sprintf("B%d())", s.n))
 		}
 	case "callback":
 		f := callbackForms[s.native]
@@ -579,7 +590,7 @@ func (p *prog) emitCall(w *fileBuf, li, si int) {
 		if s.named {
 			nm, id = userName("cb", s.n)
 		}
-		p.levels[s.fnLvl].kind = fmt.Sprintf("LvFunc %d %d", id, w.table)
+		p.levels[s.fnLvl].kind = fnKind(id, w)
 		w.w("function " + nm + "(x, y) {")
 		p.sep(w)
 		p.body(w, s.fnLvl, si+1, true, false)
@@ -591,7 +602,7 @@ func (p *prog) emitCall(w *fileBuf, li, si int) {
 		if s.named {
 			nm, id = userName("it", s.n)
 		}
-		p.levels[s.fnLvl].kind = fmt.Sprintf("LvFunc %d %d", id, w.table)
+		p.levels[s.fnLvl].kind = fnKind(id, w)
 		tail := Pick(r, []string{"})()", "}())"})
 		w.w("(function " + nm + "() {")
 		p.sep(w)
@@ -615,7 +626,8 @@ func (p *prog) emitCall(w *fileBuf, li, si int) {
 		lv.events = append(lv.events, ev("KIdent", a), ev("KDot", a))
 		native("call")
 		ef := p.newFile(0, "")
-		p.levels[s.fnLvl].kind = fmt.Sprintf("LvFuncNoFile %d", ef.table)
+		ef.noFile = true
+		p.levels[s.fnLvl].kind = fmt.Sprintf("LvFuncNoFile 0 %d", ef.table)
 		params := Pick(r, [][]string{{}, {"a"}, {"a", "b"}})
 		ef.w("(function(" + strings.Join(params, ",") + ") {\n")
 		start := len(ef.b)
@@ -698,13 +710,17 @@ func (p *prog) emitRaise(w *fileBuf, li int) {
 	case 3:
 		rat("KBracket", mark(Pick(r, []string{"¤O[\"k\"]()", "¤O['no' + 'pe']()", "¤H[\"h\"][\"k\"]()"})))
 	case 4:
-		rat("KOther", mark(Pick(r, []string{"¤(0, U)()", "¤(function(){})()()", "¤ok()()"})))
-		if strings.HasSuffix(string(w.b), "ok()()") {
-			at := w.here()
-			lv.events = append(lv.events, fmt.Sprintf("EvCall KIdent %d %d %d", at.idx-6, at.line, at.col-6))
-		} else if strings.HasSuffix(string(w.b), "(function(){})()()") {
-			at := w.here()
-			lv.events = append(lv.events, fmt.Sprintf("EvCall KOther %d %d %d", at.idx-18, at.line, at.col-18))
+		switch r.Intn(3) {
+		case 0:
+			rat("KOther", mark("¤(0, U)()"))
+		case 1: // the inner call is made first (recorded), its result is not callable
+			at := mark("¤ok()()")
+			call("KIdent", at)
+			rat("KOther", at)
+		default:
+			at := mark("¤(function(){})()()")
+			call("KOther", at)
+			rat("KOther", at)
 		}
 	case 5:
 		switch r.Intn(3) {
@@ -716,14 +732,14 @@ func (p *prog) emitRaise(w *fileBuf, li int) {
 			rat("KBracket", mark("new ¤O[\"k\"]()"))
 		}
 	case 6:
-		at := mark(Pick(r, []string{"new ¤Math.max()", "new ¤Math.max", "new ¤JSON.parse(\"1\")"}))
-		call("KDot", at)
-		noat(at)
 		if r.Intn(2) == 0 {
-			// identifier callee
-			lv.events = lv.events[:len(lv.events)-1]
-			w.b = w.b[:0+len(w.b)] // keep text; append a second raise is not possible, so leave as is
+			at := mark(Pick(r, []string{"new ¤Math.max()", "new ¤Math.max", "new ¤JSON.parse(\"1\")"}))
 			call("KDot", at)
+			noat(at)
+		} else {
+			at := mark(Pick(r, []string{"new ¤parseInt(\"1\")", "new ¤isNaN"}))
+			call("KIdent", at)
+			noat(at)
 		}
 	case 7:
 		rat("KDot", mark(Pick(r, []string{"¤U.x", "¤NUL.x", "¤null.x", "¤undefined.y", "1 + ¤U.x", "¤O.q.z", "ok(¤U.x)"})))
@@ -857,7 +873,7 @@ func (p *prog) emitRaise(w *fileBuf, li int) {
 	case 33:
 		noat(mark(Pick(r, []string{"¤BAD + \"\"", "¤BAD * 2", "¤BAD < 1"})))
 	case 34:
-		call("KDot", mark(Pick(r, []string{"¤Object.prototype.hasOwnProperty.call(null, \"x\")", "¤Object.prototype.hasOwnProperty.call(U, \"x\")"})))
+		call("KDot", mark(Pick(r, []string{"¤Object.prototype.hasOwnProperty.call(null, \"x\")", "¤Object.prototype.hasOwnProperty.call(NUL, \"k\")"})))
 		p.nativeTop("call", "hasOwnProperty")
 	case 35:
 		n := Pick(r, []string{"forEach", "map", "filter", "some", "every"})
@@ -969,6 +985,16 @@ func (p *prog) run(wrapped bool, viaCopy bool) runResult {
 	var res runResult
 	o := Guard(func() (otto.Value, error) {
 		vm := otto.New()
+		if p.history > 0 {
+			// earlier runs on the same runtime, under another limit, ending in caught and uncaught
+			// errors at various depths: nothing of them may show in the trace of the program
+			vm.SetStackTraceLimit(p.history)
+			_, _ = vm.Run("function w1(){ w2() } function w2(){ zz } try { w1() } catch (e) {}")
+			_, _ = vm.Run("(function(){ [1].forEach(function(){ null.x }) })()")
+			_, _ = vm.Run("w1()")
+			_, _ = vm.Run("eval('w1()')")
+			_, _ = vm.Run("var = ;")
+		}
 		vm.SetStackTraceLimit(p.limit)
 		if _, err := vm.Run(prelude); err != nil {
 			panic("prelude: " + err.Error())
@@ -1014,21 +1040,104 @@ func (p *prog) run(wrapped bool, viaCopy bool) runResult {
 	return res
 }
 
-func genProgram(env *Env, pinned int) {
-	r := env.Rng
+// hand-built witnesses of the listed findings (deterministic, run first on every run)
+func pinnedProgram(r *rand.Rand, k int) *prog {
+	p := &prog{r: r, limit: 10}
+	p.main = p.newFile(0, "")
+	w := p.main
+	g := &lvl{kind: "LvGlobal 0"}
+	p.levels = []*lvl{g}
+	mark := func(f *fileBuf, s string) pos {
+		i := strings.Index(s, "¤")
+		f.w(s[:i])
+		at := f.here()
+		f.w(s[i+len("¤"):])
+		return at
+	}
+	wrap := func(stmt string) pos {
+		p.wrapStart = len(w.b)
+		w.w("/*--*/ ")
+		at := mark(w, stmt)
+		p.wrapEnd = len(w.b)
+		w.w(";\n")
+		return at
+	}
+	rnoat := func(at pos) string { return fmt.Sprintf("RNoAt %d %d %d", at.idx, at.line, at.col) }
+	rat := func(at pos) string { return fmt.Sprintf("RAt KIdent %d %d %d", at.idx, at.line, at.col) }
+	f1 := &lvl{kind: "LvFunc 1010 0"} // f1 in file 0
+	switch k {
+	case 1:
+		p.kind = 20
+		at := wrap("¤eval(\"1 = 2\")")
+		g.events = append(g.events, ev("KIdent", at))
+		p.raise = rnoat(at)
+	case 2:
+		p.kind = 12
+		at := wrap("new ¤Array(-1)")
+		g.events = append(g.events, ev("KIdent", at))
+		p.raise = rnoat(at)
+	case 3:
+		p.kind = 26
+		at := wrap("new ¤RegExp(\"(\")")
+		g.events = append(g.events, ev("KIdent", at))
+		p.raise = rnoat(at)
+	case 4:
+		p.kind = 23
+		w.w("function f1(a, b) {\n  ")
+		f1.events = append(f1.events, ev("KIdent", w.here()))
+		w.w("ok(); ")
+		p.raise = rnoat(mark(w, "¤\"a\" in 1;\n}\n"))
+		g.events = append(g.events, ev("KIdent", wrap("¤f1()")))
+		p.levels = append(p.levels, f1)
+	case 5:
+		p.kind = 10
+		w.w("function f1(a, b) {\n  ")
+		f1.events = append(f1.events, ev("KOther", w.here()))
+		w.w("(function () { ")
+		p.raise = rat(mark(w, "¤zz; })();\n}\n"))
+		g.events = append(g.events, ev("KIdent", wrap("¤f1()")))
+		p.levels = append(p.levels, f1, &lvl{kind: "LvFunc 0 0"})
+	case 6:
+		p.kind = 10
+		ef := p.newFile(0, "")
+		ef.w("1")
+		w.w("function f1(a, b) {\n  ")
+		f1.events = append(f1.events, ev("KIdent", w.here()), fmt.Sprintf("EvEvalEnter %d", ef.table), "EvEvalLeave")
+		w.w("eval(\"1\"); ")
+		f1.events = append(f1.events, ev("KIdent", w.here()))
+		w.w("f2();\n}\nfunction f2(a, b) { ")
+		p.raise = rat(mark(w, "¤zz; }\n"))
+		g.events = append(g.events, ev("KIdent", wrap("¤f1()")))
+		p.levels = append(p.levels, f1, &lvl{kind: "LvFunc 1020 0"})
+	case 7:
+		p.kind = 10
+		ef := p.newFile(0, "")
+		ef.w("(function() {\n")
+		p.raise = rat(mark(ef, "¤zz\n})"))
+		at := wrap("¤Function(\"zz\").call(null)")
+		g.events = append(g.events, ev("KIdent", at), ev("KDot", at))
+		p.levels = append(p.levels, &lvl{kind: fmt.Sprintf("LvNative %d", nameIDs["call"])}, &lvl{kind: fmt.Sprintf("LvFuncNoFile 0 %d", ef.table)})
+	case 8:
+		p.kind = 10
+		w.w("1;\r2; ")
+		p.raise = rat(wrap("¤zz"))
+	case 9:
+		p.kind = 10
+		w.w("/* \u00e9 */ ")
+		p.raise = rat(wrap("¤zz"))
+	}
+	return p
+}
+
+func randomProgram(r *rand.Rand) (*prog, string) {
 	q, qname := pickQuirks(r)
 	p := &prog{r: r, q: q}
-	if pinned > 0 {
-		p.q = quirks{}
-		qname = "pinned"
-	}
-	// files
-	if r.Intn(3) == 0 && pinned == 0 {
+	if r.Intn(3) == 0 {
 		id := 1 + r.Intn(len(fileNames)-1)
 		p.lib = p.newFile(id, fileNames[id])
 	}
 	mid := 0
-	if r.Intn(3) == 0 && pinned == 0 {
+	if r.Intn(3) == 0 {
 		mid = 1 + r.Intn(len(fileNames)-1)
 		if p.lib != nil && mid == p.lib.nameID {
 			mid = 0
@@ -1037,8 +1146,11 @@ func genProgram(env *Env, pinned int) {
 	p.main = p.newFile(mid, fileNames[mid])
 	// limit and depth, correlated so that the cut is exercised on both sides
 	scopes := 1 + r.Intn(5)
-	if r.Intn(4) == 0 {
+	switch r.Intn(8) {
+	case 0, 1:
 		scopes = 1 + r.Intn(14)
+	case 2:
+		scopes = 9 + r.Intn(8) // around the default limit of 10 and beyond
 	}
 	switch r.Intn(8) {
 	case 0:
@@ -1053,39 +1165,7 @@ func genProgram(env *Env, pinned int) {
 		p.limit = scopes + r.Intn(5) - 2
 	}
 	p.kind = p.pickKind()
-	switch pinned {
-	case 1: // eval("1 = 2")
-		p.kind, scopes, p.limit = 20, 1, 10
-	case 2: // new Array(-1)
-		p.kind, scopes, p.limit = 12, 1, 10
-	case 3: // new RegExp("(")
-		p.kind, scopes, p.limit = 26, 1, 10
-	case 4: // 1 in 2 after a call
-		p.kind, scopes, p.limit, p.q.noAt = 23, 2, 10, true
-	case 5: // IIFE
-		scopes, p.limit, p.q.site, p.kind = 3, 10, true, 10
-	case 6:
-		scopes, p.limit, p.q.evalStale, p.kind = 2, 10, true, 10
-	case 7:
-		scopes, p.limit, p.q.noFile, p.kind = 3, 10, true, 10
-	case 8:
-		scopes, p.limit, p.q.term, p.kind = 2, 10, true, 10
-	case 9:
-		scopes, p.limit, p.q.char, p.kind = 2, 10, true, 10
-	}
 	p.plan(scopes)
-	if pinned == 5 {
-		p.steps[0].what, p.steps[0].call = "iife", ""
-	}
-	if pinned == 7 && p.steps[0].what != "fctor" {
-		// force a Function-constructor frame
-		p.steps = nil
-		p.counter = 0
-		for len(p.steps) == 0 || p.steps[0].what != "fctor" {
-			p.steps = nil
-			p.plan(3)
-		}
-	}
 	for i := len(p.steps) - 1; i >= 0; i-- {
 		if p.steps[i].what == "decl" {
 			p.define(i)
@@ -1095,25 +1175,24 @@ func genProgram(env *Env, pinned int) {
 	if r.Intn(2) == 0 {
 		p.sep(p.main)
 	}
-	if pinned == 6 {
-		// make sure a completed direct eval precedes the call
-		lv := p.levels[0]
-		lv.events = append(lv.events, ev("KIdent", p.main.here()))
-		ef := p.newFile(0, "")
-		ef.w("1")
-		lv.events = append(lv.events, fmt.Sprintf("EvEvalEnter %d", ef.table), "EvEvalLeave")
-		p.main.w("eval(\"1\");\n")
-	}
-	if pinned == 8 {
-		p.main.w("1;\r2; ")
-	}
-	if pinned == 9 {
-		p.main.w("/* é */ ")
-	}
 	p.body(p.main, 0, 0, false, true)
 	p.main.w("\n")
+	return p, qname
+}
 
-	viaCopy := r.Intn(7) == 0
+func genProgram(env *Env, pinned int) {
+	r := env.Rng
+	var p *prog
+	var qname string
+	if pinned > 0 {
+		p, qname = pinnedProgram(r, pinned), "pinned"
+	} else {
+		p, qname = randomProgram(r)
+	}
+	viaCopy := pinned == 0 && r.Intn(7) == 0
+	if pinned == 0 && r.Intn(4) == 0 {
+		p.history = 1 + r.Intn(12)
+	}
 	r1 := p.run(false, viaCopy)
 	r2 := p.run(true, viaCopy)
 
@@ -1132,13 +1211,13 @@ func genProgram(env *Env, pinned int) {
 	for _, f := range p.files {
 		srcs = append(srcs, fmt.Sprintf("file %d %q: %q", f.table, f.name, string(f.b)))
 	}
-	txt := fmt.Sprintf("trace limit=%d copy=%v kind=%d %s -> Error()=%q String()=%q panic=%v", p.limit, viaCopy, p.kind,
+	txt := fmt.Sprintf("trace limit=%d copy=%v history=%d kind=%d %s -> Error()=%q String()=%q panic=%v", p.limit, viaCopy, p.history, p.kind,
 		strings.Join(srcs, " ; "), r1.errText, r1.str, r1.panicked)
-	nontrivial := len(p.levels) >= 2
-	env.Add(fmt.Sprintf("CTrace %s %s %s (%s) %s %s", Clist(files), Cz(int64(p.limit)), Clist(levels), p.raise, Cbool(hdrOK), Clist(frames)),
-		txt, "trace/"+qname, nontrivial)
+	env.Add(fmt.Sprintf("CTrace %d %s %s %s (%s) %s %s", landed, Clist(files), Cz(int64(p.limit)), Clist(levels), p.raise, Cbool(hdrOK), Clist(frames)),
+		txt, "trace/"+qname, len(p.levels) >= 2)
 
-	// ---- class facts case ----
+	// ---- class facts case: [class of Run's error; class by e.name; instanceof own constructor; instanceof Error;
+	//      prototype and constructor; [[Class]]; message is a non-empty string; String(e) = name: message = Error(); e.stack = String()]
 	obs := []int64{ErrClass(Outcome{Err: errOf(r1), Panic: r1.panicked}), 0, 0, 0, 0, 0, 0, 0, 0}
 	parts := strings.Split(r2.facts, "\u0001")
 	if len(parts) == 5 {
@@ -1159,9 +1238,7 @@ func genProgram(env *Env, pinned int) {
 			obs[8] = 1
 		}
 	}
-	// facts_expect has 10 entries: class, name class, 4 structure flags, msg twice (string / non-empty), text, stack
-	o10 := []int64{obs[0], obs[1], obs[2], obs[3], obs[4], obs[5], 1, obs[6], obs[7], obs[8]}
-	env.Add(fmt.Sprintf("CFacts %d %s", p.kind, Czlist(o10)),
+	env.Add(fmt.Sprintf("CFacts %d %d %s", landed, p.kind, Czlist(obs)),
 		fmt.Sprintf("facts kind=%d main=%q -> Error()=%q in-script=%q", p.kind, string(p.main.b), r1.errText, r2.facts), "facts", true)
 }
 
@@ -1180,14 +1257,14 @@ func randText(r *rand.Rand, special bool) string {
 	for n := r.Intn(12); n >= 0; n-- {
 		for k := r.Intn(9); k > 0; k-- {
 			if special && r.Intn(6) == 0 {
-				sb.WriteString(Pick(r, []string{"é", "€", "日", "ß", " x"}))
+				sb.WriteString(Pick(r, []string{"é", "€", "日", "ß", "\u2028x"}))
 			} else {
 				sb.WriteByte(byte('a' + r.Intn(26)))
 			}
 		}
 		if n > 0 {
 			if special && r.Intn(3) == 0 {
-				sb.WriteString(Pick(r, []string{"\r", "\r\n", " ", " ", "\n\r"}))
+				sb.WriteString(Pick(r, []string{"\r", "\r\n", "\u2028", "\u2029", "\n\r"}))
 			} else if r.Intn(5) == 0 {
 				sb.WriteString("\r\n")
 			} else {
@@ -1283,17 +1360,17 @@ func genPos(env *Env, pinned int) {
 // parser positions of an offending token
 
 var badStmts = []string{"x = ¤;", "a ¤b", "y = ¤@;", "f(¤,)", "1 +¤* 2", "var ¤if", "{ a: ¤}", "if (x ¤{", "¤}",
-	"for (var i in 1 ¤2)", "¤1 = 2", "x = ¤\"abc", "x = 1 ¤2", "x = 1 ¤\"s\"", "x = [1 ¤2]", "x = (1 + 2¤", "q = {a: 1 ¤b: 2}",
-	"¤return 1", "¤break", "¤continue", "do x++; while ¤x", "x = 1 ¤true", "switch (x) { ¤x }", "¤)", "x ¤=> 1", "a.¤1"}
+	"for (var i in 1 ¤2)", "¤1 = 2", "x = ¤\"abc", "x = 1 ¤2", "x = 1 ¤\"s\"", "x = [1 ¤2]", "x = (1 + 2¤",
+	"¤return 1", "¤break", "¤continue", "do x++; while ¤x", "x = 1 ¤true", "switch (x) { ¤x }", "¤)", "x =¤> 1"}
 
 func genSyntax(env *Env, pinned int) {
 	r := env.Rng
 	special := r.Intn(3) == 0
 	var sb strings.Builder
 	for n := r.Intn(6); n > 0; n-- {
-		sb.WriteString(Pick(r, []string{"var a = 1;", "x = y + 2;", "function f(a){ return a }", "/* c */", "if (x) { y() }", "// line", "s = \"str\";", ";"}))
+		sb.WriteString(Pick(r, []string{"var a = 1;", "x = y + 2;", "function f(a){ return a }", "/* c */", "if (x) { y() }", "// line\n", "s = \"str\";", ";"}))
 		if special && r.Intn(2) == 0 {
-			sb.WriteString(Pick(r, []string{"\r", "\r\n", " ", " ", " /* é€ */ ", "t = \"日本\";"}))
+			sb.WriteString(Pick(r, []string{"\r  ", "\r\n", "\u2028", "\u2029", " /* é€ */ ", "t = \"日本\";"}))
 		} else {
 			sb.WriteString(Pick(r, []string{"\n", "\n", " ", "\n   ", "\r\n", "\n\n"}))
 		}
@@ -1308,16 +1385,12 @@ func genSyntax(env *Env, pinned int) {
 	sb.WriteString(bad[:i])
 	off := sb.Len()
 	sb.WriteString(bad[i+len("¤"):])
-	if strings.HasSuffix(bad, "¤") {
-		// offending token is the end of input
-	} else if !strings.Contains(bad, "\"abc") && r.Intn(2) == 0 {
+	atEnd := strings.HasSuffix(bad, "¤") // the offending token is the end of input
+	if !atEnd && !strings.Contains(bad, "\"abc") && r.Intn(2) == 0 {
 		sb.WriteString(Pick(r, []string{"\n", "\nvar z = 1;\n", " "}))
-		if strings.HasSuffix(bad, "2¤") {
-			off = sb.Len()
-		}
 	}
 	src := sb.String()
-	if strings.HasSuffix(bad, "¤") {
+	if atEnd {
 		off = len(src)
 	}
 	how := r.Intn(3)
@@ -1364,7 +1437,10 @@ func genText(env *Env, pinned int) {
 	var src strings.Builder
 	var coq string
 	src.WriteString("var __s; ")
-	if r.Intn(4) > 0 || pinned > 0 {
+	if pinned == 1 {
+		src.WriteString("var e = new TypeError(\"x\"); e.message = \"y\"; ")
+		coq = fmt.Sprintf("ThError %s %s (Some %s) (Some %s)", Cstr("TypeError"), Cstr("x"), Cstr("TypeError"), Cstr("y"))
+	} else if r.Intn(4) > 0 {
 		cls := Pick(r, errNames)
 		m := Pick(r, strs)
 		curName, curMsg := "(Some "+Cstr(cls)+")", "(Some "+Cstr(m)+")"
@@ -1383,9 +1459,6 @@ func genText(env *Env, pinned int) {
 		nmut := r.Intn(4)
 		if r.Intn(2) == 0 {
 			nmut = 0
-		}
-		if pinned == 1 {
-			nmut = 1
 		}
 		for k := 0; k < nmut; k++ {
 			v := Pick(r, strs)
@@ -1414,7 +1487,7 @@ func genText(env *Env, pinned int) {
 		coq = "ThOther " + Cstr(v[1])
 	}
 	src.WriteString("__s = String(e); ")
-	if r.Intn(2) == 0 {
+	if r.Intn(2) == 0 || pinned > 0 {
 		src.WriteString("throw e;")
 	} else {
 		src.WriteString("(function f(){ throw e })();")
@@ -1440,11 +1513,14 @@ func genText(env *Env, pinned int) {
 func genFileSet(env *Env, pinned int) {
 	r := env.Rng
 	n := 1 + r.Intn(3)
+	if pinned == 1 {
+		n = 1
+	}
 	var texts []string
 	fs := &file.FileSet{}
 	total := 1
 	for i := 0; i < n; i++ {
-		s := randText(r, false)
+		s := strings.ReplaceAll(randText(r, false), "\r", "") // no offsets inside a CR LF pair
 		if len(s) > 30 {
 			s = s[:30]
 		}
@@ -1476,11 +1552,39 @@ func genFileSet(env *Env, pinned int) {
 	for i, s := range texts {
 		cs[i] = cbytes([]byte(s))
 	}
-	env.Add(fmt.Sprintf("CFileSet %s %s %s", Clist(cs), Cz(int64(idx)), obs),
+	env.Add(fmt.Sprintf("CFileSet %d %s %s %s", landed, Clist(cs), Cz(int64(idx)), obs),
 		fmt.Sprintf("fileset %q Position(%d) -> %s", texts, idx, otxt), "fileset", true)
 }
 
+// which of the proposed repairs (proposed_fixes/C19-*.diff) the tree under test already contains,
+// measured on the pinned witnesses: bit 0 direct eval restores the caller's file, bit 1 malformed
+// RegExp pattern raises SyntaxError, bit 2 FileSet.Position subtracts the base once
+var landed int
+
+func detectLanded() int {
+	n := 0
+	o := RunJS(otto.New(), "function f1(a, b) {\n  eval(\"1\"); f2();\n}\nfunction f2(a, b) { zz; }\nf1();\n")
+	if oe, ok := o.Err.(*otto.Error); ok && strings.Contains(oe.String(), "at f1 (<anonymous>:2:14)\n") {
+		n |= 1
+	}
+	o = RunJS(otto.New(), "new RegExp(\"(\")")
+	if o.Err != nil && strings.HasPrefix(o.Err.Error(), "SyntaxError") {
+		n |= 2
+	}
+	func() {
+		defer func() { _ = recover() }()
+		fs := &file.FileSet{}
+		fs.AddFile("f0.js", "ab")
+		if ps := fs.Position(file.Idx(1)); ps != nil && ps.Line == 1 && ps.Column == 1 {
+			n |= 4
+		}
+	}()
+	return n
+}
+
 func runC19(env *Env) {
+	landed = detectLanded()
+	env.Extra["repairs_already_in_tree"] = landed
 	env.Import = "Otto.C19.Corr"
 	env.Rule = "programs: an error-raising construct of one of 51 kinds placed by a position-tracking generator inside 0-14 nested frames (declared/anonymous/named function expressions, methods, constructors, call/apply/bind, callbacks of 11 built-ins, IIFEs, direct and indirect eval, Function()), 0-3 earlier statements per frame (calls of every callee form, completed evals, caught errors), up to two named files plus eval texts, trace limits -3..15 correlated with the depth, optionally through Otto.Copy; plus file.Position on random texts/offsets, parser positions of an offending token, uncaught text after name/message mutations, FileSet.Position; non-trivial = distinct case with at least one call frame (traces) or a line break (positions); all text/fileset/facts cases"
 	pins := []func(){}
